@@ -139,6 +139,17 @@ CLAIMS["C13"] = {
     "design": "DESIGN.md §5 C13",
 }
 
+CLAIMS["C10"] = {
+    "text": "Partial, bounded: VariadicColumnMultiset of the real variadics crate is checked by Kani against a multiset-of-tuples oracle "
+            "(schema (u8,u8), <= 3 inserts from new()): insert always reports true and len counts with multiplicity, iter/into_iter/drain yield "
+            "exactly the inserted tuples, contains agrees with membership, drain leaves an empty reusable collection with no stale tuple, extend "
+            "is repeated insert.",
+    "note": "NOT covered: VariadicHashSet and VariadicCountedHashSet own a hashbrown HashTable (outside CBMC's reach, spiked); a change in those "
+            "two types is not detected. std Vec is trusted.",
+    "technique": "contract-based verification: Kani bounded harness contracts on the real crate against a tuple-multiset oracle",
+    "design": "DESIGN.md §5 C10",
+}
+
 NOT_APPLICABLE = {
     "C08": "GHT nodes own std HashMap / hashbrown HashTable at every level; variadic type recursion is outside Verus' subset and CBMC does not get through hashbrown probing (spiked): no contract on these functions can be discharged here.",
     "C16": "Tool limit, measured: the channel (Rc<RefCell<Shared>>, Weak, VecDeque, SmallVec<[Waker;1]>, tokio error types) extracted verbatim into a Kani harness crate (contracts/kani/vk_mpsc, kept unregistered) drives CBMC to 65 GB RSS in propositional reduction for a single try_send call with static-vtable wakers and forgotten endpoints; Rc/RefCell/Waker code is outside Verus' subset; the no-stranded-sender part is a liveness property needing whole-history ghost state. The stale-duplicate-waker stranding trace found while reading is documented in DESIGN.md §6.2 with its native reproduction; no registered check reports it.",
